@@ -41,5 +41,8 @@ Example C06_required_nonvacuous :
   frequired false (mkF "x" "x" (TUnion [TInt; TNone]) false true None false) = true /\
   is_field_nullable (wrap [true; false] (FCore (core_of_ty (TUnion [TInt; TNone])))) false = true /\
   fnullable (mkF "w" "w" (TLit [JInt 1; JNull]) true true None true) = true /\
-  fnullable (mkF "w" "w" (TLit [JInt 1; JNull]) false true None false) = false.
+  fnullable (mkF "w" "w" (TLit [JInt 1; JNull]) false true None false) = false /\
+  (* Union[int, None, str] (three members): nullable since /repo 906a805, hence not required under omit_none *)
+  frequired true (mkF "u" "u" (TUnion [TInt; TNone; TStr]) false true None false) = false /\
+  is_field_nullable (FCore (core_of_ty (TUnion [TInt; TNone; TStr]))) false = true.
 Proof. repeat split; reflexivity. Qed.
